@@ -376,6 +376,13 @@ def check_gate_init_table(idx: Index, rep: Report) -> bool:
         ("control on a gate not starting with C", ("X", 0, 1)), ("control on a rotation", ("RZ", 0, [1], 0.2)),
         ("non-string name", (7, 0)),
     ]
+    # the arity classes, name by name: a one-target name refuses two targets, a two-target name refuses one and three
+    for nm in sorted(sets.get("ONE_TARGET_GATES", ())):
+        if nm not in ("MEASURE", "CMEASURE"):
+            bad.append((f"two targets for the one-target gate {nm}", (nm, [0, 1], ([2] if nm.startswith("C") else None), 0.1)))
+    for nm in sorted(sets.get("TWO_TARGET_GATES", ())):
+        bad.append((f"one target for the two-target gate {nm}", (nm, [0], ([2] if nm.startswith("C") else None), 0.1)))
+        bad.append((f"three targets for the two-target gate {nm}", (nm, [0, 1, 3], ([2] if nm.startswith("C") else None), 0.1)))
     all_ok = True
     for label, args in bad:
         try:
@@ -573,6 +580,10 @@ def _check_arity_table(idx, rep, f, rule):
             if chain is None or n.lineno < chain.lineno:
                 chain = n
     if chain is None:
+        if _SEMANTIC_OK[0]:
+            # written without an if-chain: the folded table (every one- and two-target name with a wrong number of targets) has decided the arity classes
+            rep.ok(rule, f, f.node, text="arity classes decided by the folded validation table", what="expected target counts come from the arity classes")
+            return
         rep.violation(rule, f, f.node, text="arity table", what="expected target counts come from the arity classes",
                       reason="no dispatch on ONE_TARGET_GATES / TWO_TARGET_GATES found")
         return
